@@ -484,6 +484,10 @@ pub fn u_nested_rep() -> Universe {
                     let inner = format!("{}{y}", x.repeat(i));
                     let mid = format!("{}{z}", inner.repeat(j));
                     w.push(mid.repeat(k));
+                    // mirrored: the single grapheme first, the repeated one last -- (y x^i)^j and (z (y x^i)^j)^k
+                    let inner_m = format!("{y}{}", x.repeat(i));
+                    w.push(inner_m.repeat(j));
+                    w.push(format!("{z}{}", inner_m.repeat(j)).repeat(k));
                 }
                 for v in ["a", "+"] {
                     if v == z {
@@ -499,7 +503,7 @@ pub fn u_nested_rep() -> Universe {
     }
     w.sort();
     w.dedup();
-    Universe::from_words("U_nest: ((x^i y)^j z)^k and (((x^2 y)^2 z)^2 w)^2 over {. + a b \\ e-acute - 1 U+1F4A9}, i,j,k in {2,3}", w, 1)
+    Universe::from_words("U_nest: ((x^i y)^j z)^k, mirrored (y x^i)^j and (z (y x^i)^j)^k, and (((x^2 y)^2 z)^2 w)^2 over {. + a b \\ e-acute - 1 U+1F4A9}, i,j,k in {2,3}", w, 1)
 }
 
 /// Prefix x suffix words whose trie order differs from their raw-text order once a conversion is applied: prefixes
@@ -554,4 +558,17 @@ pub fn u_feature_rich() -> Universe {
         out.push(ids);
     }
     Universe { name: "U_rich: 14 small sets in which many features meet (two digit scripts, both cases, case partners of different length, repeats, two kinds of whitespace, metacharacters, marks, astral, prefixes)".to_string(), words, sets: out }
+}
+
+/// One long literal line with ONE special character at every position: a^pos + kind + "b" for every pos in 1..=130
+/// and around 240, kind in {backslash, space, #, e-acute, (, U+1F4A9}. Whatever a printer does at a column (wrapping,
+/// chunking, buffering) meets every kind of token boundary at every column.
+pub fn u_long_literal_at() -> Universe {
+    let mut w = vec![];
+    for pos in (1..=130usize).chain(236..=244) {
+        for kind in ["\\", " ", "#", "\u{e9}", "(", "\u{1f4a9}"] {
+            w.push(format!("{}{kind}b", "a".repeat(pos)));
+        }
+    }
+    Universe::from_words("U_longlit: a^pos + k + b, pos = 1..=130 and 236..=244, k in {backslash, space, #, e-acute, (, U+1F4A9}", w, 1)
 }
